@@ -46,7 +46,9 @@ def phi_1D(xx, nu=1.0, theta0=1.0, gamma=0, h=0.5, theta=None, beta=1, deme_ids=
     # Modified to incorporate fact that for beta != 1, we get a term of 
     # 4*beta/(beta+1)^2 in V. This can be implemented by rescaling gamma
     # and rescaling the final phi.
-    gamma = gamma * 4.*beta/(beta+1.)**2
+    # The stationary density depends on selection through 2*M/V, and V is
+    # proportional to 1/nu, so the effective coefficient is gamma*nu.
+    gamma = gamma * nu * 4.*beta/(beta+1.)**2
 
     # Our final result is of the form 
     # exp(Q) * int_0_x exp(-Q) / int_0_1 exp(-Q)
@@ -134,8 +136,9 @@ def phi_1D_genic(xx, nu=1.0, theta0=1.0, gamma=0, theta=None, beta=1):
     if gamma == 0:
         return phi_1D_snm(xx, nu, theta0, beta=beta)
 
-    # Beta effectively re-scales gamma.
-    gamma = gamma * 4.*beta/(beta+1.)**2
+    # Beta effectively re-scales gamma, and so does the population size: the
+    # stationary density depends on selection through 2*M/V with V ~ 1/nu.
+    gamma = gamma * nu * 4.*beta/(beta+1.)**2
 
     exp = numpy.exp
     # Protect from warnings on division by zero
